@@ -38,7 +38,7 @@ ASSUMPTIONS = [
     "repeatability compares serialisations as bytes and, if they differ, re-parsed up to blank-node bijection (a respelling is a probe, not an alarm)",
     "a faulted read (failing destination, refused network) may raise; it may not change the source",
 ]
-PROBES = ["dest-write-failed", "lazy-reader-left-open-across-reads", "reader-cancelled", "foreign-graph-as-context", "graph-unknown-in-query", "network-refused", "network-used", "bnode-named-graph-present", "empty-graph-present", "respelled-on-repeat", "read-raised"]
+PROBES = ["dest-write-failed", "lazy-reader-left-open-across-reads", "reader-cancelled", "foreign-graph-as-context", "graph-unknown-in-query", "network-refused", "network-used", "bnode-named-graph-present", "empty-graph-present", "read-raised"]
 KNOWN_PREDICATES = {}
 
 DEFAULT = "urn:x-rdflib:default"
@@ -108,7 +108,7 @@ ROUTES = {
     "http://sim.example/doc.nt": (200, {"Content-Type": "application/n-triples"}, DOC_NT),
     "http://sim.example/moved": (302, {"Location": "http://sim.example/doc.ttl"}, b""),
 }
-MISC = ["len", "contains", "contains-foreign", "triples-foreign-context", "graphs", "contexts", "quads", "value", "items", "cbd", "all_nodes", "connected", "isomorphic", "to_isomorphic", "to_canonical_graph", "graph_diff", "skolemize", "de_skolemize", "collection", "slice", "subjects", "objects", "path", "iter", "get_context-read", "bool", "n3", "eq", "transitive_objects", "transitive_subjects", "transitiveClosure", "triples_choices", "resource", "subject_predicates", "predicate_objects", "getitem-path", "contexts-triple", "print", "prepared-query", "isomorphic-copy", "subtract", "union-op"]
+MISC = ["len", "contains", "contains-foreign", "triples-foreign-context", "graphs", "contexts", "quads", "value", "items", "cbd", "all_nodes", "connected", "isomorphic", "to_isomorphic", "to_canonical_graph", "graph_diff", "skolemize", "de_skolemize", "collection", "slice", "subjects", "objects", "path", "iter", "get_context-read", "bool", "n3", "eq", "transitive_objects", "transitive_subjects", "transitiveClosure", "triples_choices", "resource", "subject_predicates", "predicate_objects", "getitem-path", "contexts-triple", "print", "prepared-query", "isomorphic-copy", "subtract", "union-op", "triples_choices-foreign", "quads-foreign", "remove-nothing"]
 
 
 def generate(seed, tier):
@@ -403,6 +403,25 @@ def execute(trace, ctx):
                 return g_.objects(node, URIRef(P))
 
             return ("v", [key(x) for x in t.transitiveClosure(nxt, pat[0] or URIRef(EX + "s"))]), False
+        if w == "triples_choices-foreign":
+            if not isds:
+                return ("v", None), False
+            ctx.probe("foreign-graph-as-context")
+            fg = foreign if gsel in (0, None) else foreign_unknown
+            return ("v", _srt(tuple(key(y) for y in x) for x in top.triples_choices((pat[0], [URIRef(P), URIRef(Q)], pat[2]), context=fg))), False
+        if w == "quads-foreign":
+            if not isds:
+                return ("v", None), False
+            ctx.probe("foreign-graph-as-context")
+            fg = foreign if gsel in (0, None) else foreign_unknown
+            return ("v", _srt(tuple(key(y) for y in q[:3]) for q in top.quads(pat + (fg,)))), False
+        if w == "remove-nothing":
+            # not a read, but it must be a no-op: removing a triple that is in no graph (also with a foreign graph as the graph)
+            absent = (URIRef(EX + "absent"), URIRef(P), Literal("absent"))
+            if isds:
+                top.remove(absent + (foreign_unknown,))
+            t.remove(absent)
+            return ("v", None), False
         if w == "triples_choices":
             return ("v", _srt(tuple(key(y) for y in x) for x in t.triples_choices((pat[0], [URIRef(P), URIRef(Q)], pat[2])))), False
         if w == "resource":
